@@ -180,10 +180,17 @@ impl Sub<f64> for ClockTime {
 			return self.add(-ticks);
 		}
 
-		let fraction = ((self.fraction - ticks).fract() + 1.0) % 1.0;
-		let ticks = self
-			.ticks
-			.saturating_sub((ticks - self.fraction).ceil() as u64);
+		// derive the borrowed whole ticks and the new fraction from the same rounded
+		// difference, so that they cannot disagree by a whole tick
+		let difference = self.fraction - ticks;
+		let mut borrowed_ticks = (-difference).ceil().max(0.0);
+		let mut fraction = difference + borrowed_ticks;
+		if fraction >= 1.0 {
+			// the difference was a negative number too small to survive the addition
+			fraction = 0.0;
+			borrowed_ticks -= 1.0;
+		}
+		let ticks = self.ticks.saturating_sub(borrowed_ticks as u64);
 
 		Self {
 			clock: self.clock,
